@@ -131,7 +131,9 @@ def plan(rng, st, quick):
         out.append(("-uid", n))
         out.append(("-gid", n))
     for kind in ("-mtime", "-atime", "-mmin", "-amin"):
-        for n in (0, 1, 2, 3, 4, 6, 7, 8, 59, 60, 61, 399, 400, 401, 1439, 1440, 1441, 2880, 10080, 576000, 2 ** 62):
+        # (2^64 - k: the two's-complement image of a negative age of k periods — future-dated files exist in the tree)
+        for n in (0, 1, 2, 3, 4, 6, 7, 8, 59, 60, 61, 399, 400, 401, 1439, 1440, 1441, 2880, 10080, 576000, 2 ** 62, 2 ** 63 - 1, 2 ** 63, 2 ** 63 + 1,
+                  2 ** 64 - 1441, 2 ** 64 - 721, 2 ** 64 - 720, 2 ** 64 - 4, 2 ** 64 - 3, 2 ** 64 - 2, 2 ** 64 - 1):
             out.append((kind, n))
     return out
 
